@@ -375,12 +375,7 @@ fn random_case(run: &Run, case: u64) {
             if base.clean() {
                 let trace = ic.log();
                 for k in 0..trace.len() {
-                    // probes (metadata) are left out: conserve takes a probe that cannot be answered
-                    // for "not there" (band_exists(..).unwrap_or(false)), by design and outside
-                    // what this property is about; reads and listings that fail must be reported
-                    if trace[k].verb == crate::icept::V::Metadata {
-                        continue;
-                    }
+                    // (probes included: since fix c9138df a probe that cannot be answered is reported)
                     for kind in [conserve::transport::ErrorKind::PermissionDenied, conserve::transport::ErrorKind::Other, conserve::transport::ErrorKind::AlreadyExists] {
                         let ic = Icept::with_budget(&root, Mode::FailAt { k, kind }, 0, 50_000);
                         let l = cs::list(ic.transport(1), Some(n), "/", &[]);
